@@ -129,6 +129,17 @@ func c15Events(fx map[string]sigFixture) []Ev {
 			}})
 		}
 	}
+	// keys are free-form strings: spellings of the same reference hash that differ only in case (or
+	// carry a space) are different keys and must not reach the entry published under the plain one
+	for _, kv := range []struct {
+		n string
+		f func(string) string
+	}{{"upper", strings.ToUpper}, {"trailing-space", func(k string) string { return k + " " }}} {
+		kv := kv
+		evs = append(evs, Ev{Name: fmt.Sprintf("publish(ref1^%s=L2)", kv.n), Build: func(View) (sdk.Msg, string) {
+			return &sigtypes.MsgPublishReferencePayloadLink{Creator: harness.AddrS("sigB"), Key: kv.f(sha256hex(refs[0])), Value: "ipfs://link-two"}, "sigB"
+		}})
+	}
 	type skey struct {
 		n, addr, ref string
 	}
